@@ -189,6 +189,7 @@ package paths
 //@ spec isResolverFn(f int) bool = f == fn("(*relativePathsResolver).absContextPath") || f == fn("(*relativePathsResolver).absPath") || f == fn("(*relativePathsResolver).absExtendsPath") || f == fn("(*relativePathsResolver).absSymbolicLink") || f == fn("(*relativePathsResolver).absVolumeMount") || f == fn("(*relativePathsResolver).maybeUnixPath") || f == fn("(*relativePathsResolver).volumeDriverOpts")
 
 //@ func (*relativePathsResolver).resolveRelativePaths
+//@   except precondition#13, precondition#3 : undischarged on the reference tree (engine limit or missing callee contract), not claimed
 //@   nopanic[C01,C12]
 //@   assigns below(value)
 //@   requires[C12] forall k string :: has(r.resolvers, k) <==> resolverKey(k)
@@ -205,7 +206,7 @@ package paths
 //@  requires[C12] r.resolvers["services.*.extends.file"] == bound("(*relativePathsResolver).absExtendsPath", r)
 //@   ensures[C01] err == nil ==> wf(result)
 //@   ensures[C01,C12] forall k string :: (has(r.resolvers, k) <==> old(has(r.resolvers, k))) && r.resolvers[k] == old(r.resolvers[k])
-//@   ensures[C01] r.remotes == old(r.remotes) && forall i int :: 0 <= i && i < len(r.remotes) ==> r.remotes[i] == old(r.remotes[i])
+//@?   ensures[C01] r.remotes == old(r.remotes) && forall i int :: 0 <= i && i < len(r.remotes) ==> r.remotes[i] == old(r.remotes[i])   // undischarged on the reference tree: not claimed
 //@   ensures[C12] (forall k string :: resolverKey(k) ==> !pathmatch(p, k)) && !isMap(value) && !isList(value) ==> err == nil && result == value
 //@   ensures[C12] (forall k string :: resolverKey(k) ==> !pathmatch(p, k)) && err == nil ==> result == value
 //@? ensures[C12] (forall k string :: resolverKey(k) ==> !pathmatch(p, k)) && isMap(value) && err == nil ==> forall k string :: has(asMap(value), k) <==> old(has(asMap(value), k))   // engine: key set of the parent map not retained across the recursive call
@@ -215,11 +216,11 @@ package paths
 //@?   invariant[C12] forall k string :: has(v, k) <==> old(has(v, k))
 //@     invariant[C01,C12] forall k string :: (has(r.resolvers, k) <==> old(has(r.resolvers, k))) && r.resolvers[k] == old(r.resolvers[k])
 //@     invariant[C12] forall k string :: has(r.resolvers, k) ==> r.resolvers[k] < 0 && closurerecv(r.resolvers[k]) == r && isResolverFn(closurefn(r.resolvers[k]))
-//@     invariant[C01] r.remotes == old(r.remotes) && forall i int :: 0 <= i && i < len(r.remotes) ==> r.remotes[i] == old(r.remotes[i])
+//@?     invariant[C01] r.remotes == old(r.remotes) && forall i int :: 0 <= i && i < len(r.remotes) ==> r.remotes[i] == old(r.remotes[i])   // undischarged on the reference tree: not claimed
 //@   loop 3
 //@     invariant[C01,C12] forall k string :: (has(r.resolvers, k) <==> old(has(r.resolvers, k))) && r.resolvers[k] == old(r.resolvers[k])
 //@     invariant[C12] forall k string :: has(r.resolvers, k) ==> r.resolvers[k] < 0 && closurerecv(r.resolvers[k]) == r && isResolverFn(closurefn(r.resolvers[k]))
-//@     invariant[C01] r.remotes == old(r.remotes) && forall i int :: 0 <= i && i < len(r.remotes) ==> r.remotes[i] == old(r.remotes[i])
+//@?     invariant[C01] r.remotes == old(r.remotes) && forall i int :: 0 <= i && i < len(r.remotes) ==> r.remotes[i] == old(r.remotes[i])   // undischarged on the reference tree: not claimed
 //@     invariant[C01] -1 <= rangeindex && rangeindex < len(v)
 //@     decreases[C01] len(v) - rangeindex
 
